@@ -429,6 +429,7 @@ type FuncSpec struct {
 	NoPanic  bool   // generate safety obligations
 	Preserves []*PreserveSpec
 	CheckAts  []*CheckAt
+	AssumesPre []string // callees whose preconditions are assumed (not checked) at this function's call sites
 	PreciseElems bool // model copy/append of slices whose elements contain nested structs/arrays element-wise (default: havoc)
 	PreOnly  bool   // only the preconditions are used at call sites; the body is still opened/havocked as if there were no contract
 	Witness  []*Clause // named entry-state terms whose counterexample values the replay generators need
@@ -906,6 +907,17 @@ func (db *SpecDB) parseSpecText(text, file, pkgPath string) error {
 			cl.Props = props
 			ca.Cond = cl
 			cur.CheckAts = append(cur.CheckAts, ca)
+		case "assumes-pre":
+			// assumes-pre "callee": the callee's requires clauses are taken as given at the call sites
+			// in this function (what establishes them is outside this contract); reported as an assumption
+			if cur == nil {
+				return fail("assumes-pre outside func")
+			}
+			r := strings.TrimSpace(rest)
+			if !strings.HasPrefix(r, "\"") || strings.Count(r, "\"") < 2 {
+				return fail("assumes-pre \"callee\"")
+			}
+			cur.AssumesPre = append(cur.AssumesPre, r[1:1+strings.Index(r[1:], "\"")])
 		case "precise-elements":
 			if cur == nil {
 				return fail("precise-elements outside func")
